@@ -255,14 +255,30 @@ class TMGRSchedulingComponent(rpu.ClientComponent):
                     early_tasks = self._early.get(pid)
                     if early_tasks:
 
-                        for task in early_tasks:
-                            self._assign_pilot(task, pilot)
-
-                        self.advance(early_tasks, rps.TMGR_STAGING_INPUT_PENDING,
-                                     publish=True, push=True)
-
                         # forward early-bound tasks only once
                         del self._early[pid]
+
+                        # a task which cannot be assigned fails (as in the
+                        # schedulers' own loops) - it must not keep the pilot
+                        # from being added, nor the other tasks from going on
+                        tasks_ok   = list()
+                        tasks_fail = list()
+                        for task in early_tasks:
+                            try:
+                                self._assign_pilot(task, pilot)
+                                tasks_ok.append(task)
+                            except Exception as e:
+                                self._log.exception('early task %s failed',
+                                                    task['uid'])
+                                task['exception']        = repr(e)
+                                task['exception_detail'] = \
+                                             '\n'.join(ru.get_exception_trace())
+                                tasks_fail.append(task)
+
+                        self.advance(tasks_fail, rps.FAILED,
+                                     publish=True, push=False)
+                        self.advance(tasks_ok, rps.TMGR_STAGING_INPUT_PENDING,
+                                     publish=True, push=True)
 
             # let the scheduler know
             self.add_pilots([pilot['uid'] for pilot in pilots])
@@ -456,7 +472,20 @@ class TMGRSchedulingComponent(rpu.ClientComponent):
                     # the task to data staging
                     pilot = self._pilots.get(pid, {}).get('pilot')
                     if pilot:
-                        self._assign_pilot(task, pilot)
+                        # tasks of this bulk which were handled before are on
+                        # their way already: a failing assignment fails this
+                        # task only
+                        try:
+                            self._assign_pilot(task, pilot)
+                        except Exception as e:
+                            self._log.exception('early task %s failed', uid)
+                            task['exception']        = repr(e)
+                            task['exception_detail'] = \
+                                             '\n'.join(ru.get_exception_trace())
+                            self.advance(task, rps.FAILED,
+                                         publish=True, push=False)
+                            continue
+
                         self.advance(task, rps.TMGR_STAGING_INPUT_PENDING,
                                      publish=True, push=True)
 
